@@ -95,6 +95,8 @@ structure Ctx where
   followAv : Bool := false
   followSnap : Bool := false
   spy : Bool := false
+  faultRun : Bool := false
+  pending : List (Nat × FaultKind) := []
 
 def Ctx.http (c : Ctx) : HttpCfg := { cfg := c.sys.cfg, params := c.sys.params, allow := c.allow, ensure := c.sys.ensure }
 
@@ -107,6 +109,27 @@ def countTxns {α} (st : St) (p : ReqM α) : Nat :=
   match st with
   | .mem m => p.txnCount MemB .inPlace m
   | .sql s => p.txnCount SqlB .snapshotCommit s
+
+def faultFn (fs : List (Nat × FaultKind)) : Nat → FaultKind := fun n =>
+  match fs.find? (·.1 = n) with | some (_, k) => k | none => .ok
+
+/-- run a request under the pending faults (SQLite transaction semantics); returns also how many faults were hit -/
+def runReqF {α} (st : St) (fs : List (Nat × FaultKind)) (p : ReqM α) : α × St × Nat :=
+  match st with
+  | .sql s =>
+    let (o, s', n) := p.runF SqlB (faultFn fs) 0 s
+    (o, .sql s', (fs.filter (·.1 < n)).length)
+  | .mem m =>
+    let (o, m', n) := p.runF MemB (faultFn fs) 0 m
+    (o, .mem m', (fs.filter (·.1 < n)).length)
+
+def parseFaults : List String → List (Nat × FaultKind)
+  | i :: k :: rest =>
+    match i.toNat?, k with
+    | some n, "before" => (n, .failBefore) :: parseFaults rest
+    | some n, "after" => (n, .failAfter) :: parseFaults rest
+    | _, _ => parseFaults rest
+  | _ => []
 
 def execCall (st : St) (cl : Uuid) (c : Call) : Except StorageErr c.Resp :=
   match st with
@@ -240,8 +263,9 @@ def step (ctx : Ctx) (lhs : String) (implObs : String := "") : Ctx × String :=
       | some "" | some "empty" => some []
       | some l => some ((l.splitOn ",").filterMap uuidOf)
     let ensure := if kvOf ws "ensure" = some "pinned" then ensureClientPinned else ensureClientFixed
-    ({ ctx with st := st, sys := { cfg := ⟨days, vers⟩, params := Params.impl, ensure := ensure }, allow := allow, spy := kvOf ws "spy" = some "1" }, "")
+    ({ ctx with st := st, sys := { cfg := ⟨days, vers⟩, params := Params.impl, ensure := ensure }, allow := allow, spy := kvOf ws "spy" = some "1", faultRun := kvOf ws "faults" = some "1", pending := [] }, "")
   | "end" :: _ => (ctx, "")
+  | "fault" :: rest => ({ ctx with pending := parseFaults rest }, "")
   | "dump" :: c :: rest =>
     match uuidOf c with
     | none => (ctx, "bad-op")
@@ -262,7 +286,9 @@ def step (ctx : Ctx) (lhs : String) (implObs : String := "") : Ctx × String :=
       let isAs := (r.path.splitOn "/add-snapshot/").length > 1
       let cid := (header r "x-client-id").bind fun v => (toStr v).bind parseUuid
       let before := cid.bind (snapVidOf ctx.st)
-      let (resp, st') := runReq ctx.st (serve ctx.http r)
+      let (resp, st', hit) :=
+        if ctx.faultRun then runReqF ctx.st ctx.pending (serve ctx.http r)
+        else let (a, b) := runReq ctx.st (serve ctx.http r); (a, b, 0)
       let after := cid.bind (snapVidOf st')
       let macc := before ≠ after
       let acc := if isAs then s!" acc={if macc then 1 else 0}" else ""
@@ -291,12 +317,16 @@ def step (ctx : Ctx) (lhs : String) (implObs : String := "") : Ctx × String :=
           else ctx.st
         else st'
       let spy := if ctx.spy then s!" txns={countTxns ctx.st (serve ctx.http r)}" else ""
-      ({ ctx with st := st'' }, showResp resp ++ acc ++ spy)
+      let fl := if ctx.faultRun then s!" consumed={hit}" else ""
+      ({ ctx with st := st'', pending := [] }, showResp resp ++ acc ++ spy ++ fl)
   | _ =>
     match parseEv ws with
     | none => (ctx, "bad-op")
     | some e =>
-      let (o, st') := runReq ctx.st (e.req ctx.sys)
+      let (o, st', hit) :=
+        if ctx.faultRun then runReqF ctx.st ctx.pending (e.req ctx.sys)
+        else let (a, b) := runReq ctx.st (e.req ctx.sys); (a, b, 0)
+      let fl := if ctx.faultRun && (match e with | .create _ => false | _ => true) then s!" consumed={hit}" else ""
       let st'' :=
         match e, o with
         | .as c v d now, .asDone macc =>
@@ -310,7 +340,7 @@ def step (ctx : Ctx) (lhs : String) (implObs : String := "") : Ctx × String :=
         | .avLib c p seg newId _, .avConflict _ =>
           if ctx.followAv && implObs.startsWith "ok " then forceAv st' c newId p seg else st'
         | _, _ => st'
-      ({ ctx with st := st'' }, showOut o)
+      ({ ctx with st := st'', pending := [] }, showOut o ++ fl)
 
 partial def loop (h : IO.FS.Stream) (out : IO.FS.Stream) (ctx : Ctx) : IO Unit := do
   let line ← h.getLine
